@@ -23,7 +23,8 @@ from xknx.telegram.apci import GroupValueResponse, GroupValueWrite
 
 PROPERTY = "C41"
 RULE = ("update/read/initialize/bus-write/connection histories (<=30 events) with inter-arrival times from {0, ~c/3, c-e, c, c+e, 3c, "
-        "p-e, p, p+e} (e = 1/64 s, all on the 1/64 s grid) x cooldown in {0, 1 s, 5 s} x periodic_send in {0, 7 s} x respond_to_read x "
+        "p-e, p, p+e, |p-c|, p mod c, c mod p} (e = 1/64 s, all on the 1/64 s grid) x cooldown in {0, 1 s, 5 s, 10 s} x periodic_send in {0, 4 s, 7 s} "
+        "(periodic shorter and longer than the cooldown) x respond_to_read x "
         "initially connected; values from 8 temperatures with 6 distinct payloads (skip_unchanged on 35% of the sets); fixed scripts for "
         "every configuration first. non-trivial = some frame left the device at a time that is not the time of an input (a timer sent it)")
 TRUSTED = ["model XknxVerif.Model.Expose is a hand-written monitor; tied to expose_sensor.py/task_registry.py by trace acceptance on every run",
@@ -104,8 +105,8 @@ def run_impl(case):
 # ----------------------------------------------------------------------------------------------
 # generator
 # ----------------------------------------------------------------------------------------------
-COOLS = [0, 1_000_000, 5_000_000]
-PERS = [0, 7_000_000]
+COOLS = [0, 1_000_000, 5_000_000, 10_000_000]
+PERS = [0, 4_000_000, 7_000_000]      # 4 s < 5 s, 10 s: periodic task fires while a value is deferred
 
 
 def third(c):
@@ -119,8 +120,10 @@ def gaps_for(c, p):
     if p:
         g |= {p - E, p, p + E}
     if c and p:
-        g |= {p - c, p - c - E}
-    return sorted(g)
+        # the two timers meet: |p - c|, p mod c, c mod p (ties of cooldown and periodic task), around them
+        for x in (abs(p - c), p % c, c % p, abs(p - c) + E, max(abs(p - c) - E, 0)):
+            g.add(x)
+    return sorted(x for x in g if x >= 0)
 
 
 def mk(cool, per, respond=True, connected=True, events=()):
@@ -145,6 +148,12 @@ def scripts(c, p):
     # initialize_value, clearing, bus write during cooldown
     yield [["init", 1, 0], ["read", 0, E], ["set", [2, 1], E], ["set", [3, 0], E], ["init", None, third(C)], ["bus", 4, E], ["q", 0, 3 * C],
            ["read", 0, 0], ["init", 6, E], ["q", 0, P], ["q", 0, P]]
+    # periodic task fires while a value is deferred (periodic < cooldown): set, a different set inside the window, wait
+    yield [["set", [0, 0], 0], ["set", [3, 0], C // 10], ["q", 0, C - C // 10 - E], ["q", 0, E], ["q", 0, E], ["q", 0, C + P]]
+    yield [["set", [1, 0], 0], ["set", [3, 0], third(C)], ["bus", 1, E], ["set", [6, 1], E], ["read", 0, P], ["q", 0, 2 * C + P]]
+    # cooldown and periodic timer due at the same instant (first write at 0 arms both; P later the periodic write re-arms)
+    yield [["set", [0, 0], 0], ["set", [3, 0], max(P - C, 0) + E], ["q", 0, 3 * max(C, P)], ["bus", 1, E], ["q", 0, 3 * max(C, P)]]
+    yield [["set", [0, 0], 0], ["bus", 1, abs(P - C)], ["q", 0, 4 * max(C, P)]]
     # periodic sending and reads
     yield [["q", 0, P + E], ["set", [0, 0], 0], ["q", 0, P - E], ["q", 0, E], ["set", [1, 0], E], ["read", 0, third(C)], ["bus", 0, E],
            ["q", 0, P], ["conn", 0, E], ["q", 0, P], ["conn", 1, 0], ["q", 0, P + E]]
